@@ -19,6 +19,7 @@ import json
 import os
 import random
 import shutil
+import zlib
 
 from .. import flatmodel, netgen, supported_report as sr, tlc, vela_run
 from ..common import Run, MachineryError, SPEC, seed, ensure_repo_on_path
@@ -34,6 +35,7 @@ ROUND1 = set(sr.COVERED[:12])          # operators of the first round: every cas
 UNARY = {"ABS", "EXP", "RSQRT", "LEAKY_RELU", "HARD_SWISH", "SOFTMAX", "LOGISTIC", "TANH", "RELU", "RELU6", "RELU_N1_TO_1"}
 BIN2 = {"MINIMUM", "MAXIMUM", "SQUARED_DIFFERENCE"}
 # operators that move data without computing (absorbed into a neighbouring NPU subgraph when accepted)
+LUT_ACTS = ("TANH", "LOGISTIC", "HARD_SWISH")
 MEMORY_ONLY = {"RESHAPE", "SQUEEZE", "EXPAND_DIMS", "CONCATENATION", "SPLIT", "SPLIT_V", "SLICE", "STRIDED_SLICE", "TRANSPOSE"}
 # On the unchanged tree every ARG_MAX that reaches the NPU path dies with OverflowError in
 # convert_argmax_to_depthwise_conv_and_max_pool (NumPy 2; a C13 matter that is being repaired separately).  Until then the
@@ -46,6 +48,16 @@ ARG_MAX_NPU_PATH_CASES = True
 CONCAT_FUSED_ACTIVATION_CASES = True      # CONCATENATION with a fused activation: AssertionError in pass_packing.build_pass
 RESIZE_NN_ALIGN_CORNERS_CASES = True      # RESIZE_NEAREST_NEIGHBOR align_corners 2x/4x/8x, depth > 1: ValueError (reshape)
 UNQUANTISED_TRANSPOSE_CASES = True        # TRANSPOSE (exempt from 'must have quantization parameters') without them: AttributeError
+# Round 5 (equivalent encodings of an attribute).  Reproductions: harness/repro/c16_round5_findings.py.  Both classes are
+# generated, judged by the design invariants (EquivalentEncodingsSameExpect), counted in the evidence, but not compiled.
+MEAN_NEGATIVE_AXES_CASES = False          # MEAN whose axes tensor counts an axis from the end: constraint_mean_axis rejects the
+#                                           operator (CPU) although the same reduction written with axes >= 0 runs on the NPU
+SLICE_SIZE_MINUS_ONE_CASES = False        # SLICE with a size entry written -1 ("up to the end"): Operation.get_split_inputs_axis adds
+#                                           the raw -1 to the begin offset (read box ends before it starts); depending on the
+#                                           dimension, the neighbours and the options this is an AssertionError in
+#                                           high_level_command_stream.Box.__init__ or a silently wrong read region
+SQDIFF_CONST_OPERAND_CPU_NEIGHBOURS = False  # SQUARED_DIFFERENCE with a constant second operand between CPU-only neighbours
+#                                           ("sandwich"): AssertionError in tflite_writer.serialise_tensor (found by the thorough tier)
 EXP_INT16_WIDE_RANGE = False              # EXP on int16 with scale 0.05 (|x| up to 1638): OverflowError in create_lut_int16_op
 
 
@@ -60,8 +72,21 @@ def switched_off(rec):
     if (c["op"] == "RESIZE_NEAREST_NEIGHBOR" and c["align"] and npu and list(c["s1"]) != list(c["so"])
             and not (c["s1"][1] == 1 and c["s1"][2] == 1) and not RESIZE_NN_ALIGN_CORNERS_CASES):
         return "RESIZE_NN_ALIGN_CORNERS_CASES"
+    if c["op"] == "MEAN" and any(a < 0 for a in c["axes"]) and not MEAN_NEGATIVE_AXES_CASES:
+        return "MEAN_NEGATIVE_AXES_CASES"
+    if c["op"] == "SLICE" and -1 in c["sizes"] and npu and not SLICE_SIZE_MINUS_ONE_CASES:
+        return "SLICE_SIZE_MINUS_ONE_CASES"
     if c["op"] == "TRANSPOSE" and not c["hasq"] and npu and not UNQUANTISED_TRANSPOSE_CASES:
         return "UNQUANTISED_TRANSPOSE_CASES"
+    return None
+
+
+def switched_off_variant(rec, variant):
+    """switched-off classes that depend on the neighbours the case is compiled with"""
+    c = rec["c"]
+    if (c["op"] == "SQUARED_DIFFERENCE" and c.get("c2const") and variant == "sandwich" and rec["expect"] != "CPU"
+            and not SQDIFF_CONST_OPERAND_CPU_NEIGHBOURS):
+        return "SQDIFF_CONST_OPERAND_CPU_NEIGHBOURS"
     return None
 
 
@@ -119,7 +144,7 @@ def well_formed(rec):
     if c["op"] in ("CONV_2D", "DEPTHWISE_CONV_2D", "MAX_POOL_2D", "AVERAGE_POOL_2D"):
         dims += [rec["oh"], rec["ow"]]
     pads = [v for pr in c["pads"] for v in pr]
-    return (all(isinstance(x, int) and x >= 1 for x in nums + dims) and all(0 <= a < len(c["s1"]) for a in c["axes"])
+    return (all(isinstance(x, int) and x >= 1 for x in nums + dims) and all(-len(c["s1"]) <= a < len(c["s1"]) for a in c["axes"])
             and all(isinstance(v, int) and v >= 0 for v in pads) and all(len(pr) == 2 for pr in c["pads"]))
 
 
@@ -186,6 +211,18 @@ def _weights(n, c, shape, nch, qdim):
     return n.const("w", shape, TT[wt], scale=scale, zp=zp, qdim=qdim if per else None, data=data)
 
 
+def _second_operand(n, c, scale, zp):
+    """IFM2 of a binary operator: produced at run time (an input of the network) or, c.c2const, a constant of the file"""
+    if not c.get("c2const"):
+        return _fm(n, "x2", c["s2"], c["dt2"], scale, zp, is_input=True)
+    dt = c["dt2"]
+    if dt == "float32":
+        raise MachineryError("constant second operand of type float32 is not generated")
+    lo, hi = {"int8": (-120, 120), "uint8": (0, 250), "int16": (-3000, 3000), "int32": (-3000, 3000)}[dt]
+    z = 128 + zp if dt == "uint8" else 0 if dt in ("int16", "int32") else zp
+    return n.const("x2", c["s2"], TT[dt], scale=[scale], zp=[z], data={"rng": 11, "lo": lo, "hi": hi})
+
+
 def _unary_out_q(op, dt):
     """customary output quantisation of an activation-like operator (scale, zero point before the uint8 shift of _fm)"""
     if op in ("SOFTMAX", "LOGISTIC"):
@@ -210,7 +247,9 @@ def _bias(n, c, nch):
 
 def build_case(rec, variant):
     """rec = {"c": case record, "oh", "ow", "ofm"} as printed by TLC.  variant: "single" (the operator alone),
-    "sandwich" (third-party CUSTOM operators before and after: CPU-only neighbours), "npu" (NPU-able
+    "sandwich" (third-party CUSTOM operators before and after: CPU-only neighbours), "lut_post" (the only consumer is a
+    stand-alone TANH / LOGISTIC / HARD_SWISH, which the NPU runs as a lookup-table activation it likes to fuse into its
+    producer), "npu" (NPU-able
     element-wise neighbours before and after, so the operator sits inside / next to an NPU region), "npu_pre" /
     "npu_post" (an NPU-able neighbour on one side only: the operator is the last / first of the network).
     The operator under test always produces the tensor named 'y' (its first output)."""
@@ -220,7 +259,7 @@ def build_case(rec, variant):
     more_outputs = []
 
     def ifm(name, shape, dt, scale=0.05, zp=0, per_axis=False):
-        if variant in ("single", "npu_post"):
+        if variant in ("single", "npu_post", "lut_post"):
             return _fm(n, name, shape, dt, scale, zp, is_input=True, per_axis=per_axis)
         src = _fm(n, name + "_src", shape, dt, scale, zp, is_input=True, per_axis=per_axis)
         t = _fm(n, name, shape, dt, scale, zp, per_axis=per_axis)
@@ -262,7 +301,7 @@ def build_case(rec, variant):
                                                   "FusedActivationFunction": FAF[c["faf"]]}])
     elif op in ("ADD", "SUB", "MUL"):
         x = ifm("x", c["s1"], c["dt"], per_axis=c["paq"] == "ifm")
-        x2 = _fm(n, "x2", c["s2"], c["dt2"], 0.03, 2, is_input=True)
+        x2 = _second_operand(n, c, 0.03, 2)
         y = _fm(n, "y", c["so"], c["odt"], 0.1, -1, quant=c["hasq"])
         n.op(op, [x, x2], [y], [{"ADD": "AddOptions", "SUB": "SubOptions", "MUL": "MulOptions"}[op],
                                {"FusedActivationFunction": FAF[c["faf"]]}])
@@ -308,7 +347,7 @@ def build_case(rec, variant):
         n.op(op, [x], [y], opts)
     elif op in BIN2:
         x = ifm("x", c["s1"], c["dt"])
-        x2 = _fm(n, "x2", c["s2"], c["dt2"], 0.05 if c["qmatch"] else 0.03, 0 if c["qmatch"] else 2, is_input=True)
+        x2 = _second_operand(n, c, 0.05 if c["qmatch"] else 0.03, 0 if c["qmatch"] else 2)
         same = op in ("MINIMUM", "MAXIMUM")
         y = _fm(n, "y", c["so"], c["odt"], 0.05 if same else 0.1, 0 if same else -1, quant=c["hasq"])
         n.op(op, [x, x2], [y])
@@ -389,6 +428,14 @@ def build_case(rec, variant):
         z = _fm(n, "z", n.t[y]["shape"], c["odt"], 0.07, -5, quant=c["hasq"] and op != "ARG_MAX")
         if variant == "sandwich":
             n.op("CUSTOM", [y], [z], custom_code="CpuOnlyAfter", custom_options=[2])
+        elif variant == "lut_post":
+            # the only consumer is a stand-alone activation the NPU executes with a lookup table
+            act = LUT_ACTS[zlib.crc32(json.dumps(c, sort_keys=True).encode()) % len(LUT_ACTS)]
+            osc, ozp = _unary_out_q(act, c["odt"])
+            if c["hasq"] and op != "ARG_MAX" and c["odt"] != "float32":
+                q = n.t[z]
+                q["scale"], q["zp"] = [osc], [(128 + ozp) if c["odt"] == "uint8" else 0 if c["odt"] in ("int16", "int32") else ozp]
+            n.op(act, [y], [z])
         else:
             n.op("ADD", [y, y], [z], ["AddOptions", {"FusedActivationFunction": 0}])
         return n.desc([z] + more_outputs)
@@ -577,7 +624,10 @@ GOLDEN_DIR = os.path.join(os.path.dirname(os.path.dirname(os.path.abspath(__file
 
 GOLDEN_AXES_ROUND1 = ("nominal", "kernel_h", "stride_h", "stride_w", "dim_h", "dim_w", "batch", "dtype", "mean_axes", "mean_width",
                       "quant_differs", "weights_zero_point", "weights_zero_point_forced", "per_axis_weights_zero_point",
-                      "force_option", "neutral_option")
+                      "force_option", "neutral_option",
+                      # round 5
+                      "broadcast", "broadcast_ranks", "broadcast_ranks_swapped", "broadcast_leading", "broadcast_ranks_mismatch",
+                      "second_operand_constant")
 
 
 def regen_golden():
@@ -670,6 +720,45 @@ def negative_controls(run, tier="thorough"):
     kept = next(e for e in decided if e["observed"] == "CPU" and e["c"]["op"] == "RESHAPE")
     add(kept, "CpuNotUnchanged", unchanged=False)
     add(kept, "ViolatesButNpu", observed="NPU")
+    # ---- round 5: operands of different ranks, attributes in their other encoding
+    BC = {"broadcast_ranks", "broadcast_ranks_swapped", "broadcast_leading", "broadcast_ranks_mismatch"}
+    n_bc, n_enc, ops_bc, ops_enc = 0, 0, set(), set()
+    for e in decided:
+        c = e["c"]
+        if c["axis"] in BC and len(c["s1"]) != len(c["s2"]):
+            add(e, "SatisfiesButCpu" if e["observed"] == "NPU" else "ViolatesButNpu", observed="CPU" if e["observed"] == "NPU" else "NPU")
+            n_bc += 1
+            ops_bc.add((c["op"], e["observed"]))
+        rank = len(c["so"]) if c["op"] == "CONCATENATION" else len(c["s1"])
+        if c["op"] in ("CONCATENATION", "SPLIT", "SPLIT_V", "ARG_MAX") and -rank <= c["ax"] < rank:
+            other = c["ax"] + rank if c["ax"] < 0 else c["ax"] - rank
+            # the same operator written the other way: same verdict for the same placement, a verdict for the other placement
+            f = add(e, None)
+            f["c"]["ax"] = other
+            f = add(e, "SatisfiesButCpu" if e["observed"] == "NPU" else "ViolatesButNpu", observed="CPU" if e["observed"] == "NPU" else "NPU")
+            f["c"]["ax"] = other
+            n_enc += 1
+            ops_enc.add((c["op"], c["ax"] < 0, e["observed"]))
+        if c["op"] == "MEAN" and c["axis"] == "mean_axes" and c["axes"] and all(a >= 0 for a in c["axes"]):
+            f = add(e, None)
+            f["c"]["axes"] = [a - len(c["s1"]) for a in c["axes"]]
+            f = add(e, "SatisfiesButCpu" if e["observed"] == "NPU" else "ViolatesButNpu", observed="CPU" if e["observed"] == "NPU" else "NPU")
+            f["c"]["axes"] = [a - len(c["s1"]) for a in c["axes"]]
+            n_enc += 1
+            ops_enc.add(("MEAN", False, e["observed"]))
+    need_bc = {(op, "NPU") for op in ("ADD", "SUB", "MUL", "MINIMUM", "MAXIMUM", "SQUARED_DIFFERENCE")} | \
+              {(op, "CPU") for op in ("ADD", "SUB", "MUL", "MINIMUM", "MAXIMUM")}
+    need_enc = {(op, neg, "NPU") for op in ("CONCATENATION", "SPLIT", "SPLIT_V", "ARG_MAX") for neg in (False, True)} | \
+               {("CONCATENATION", False, "CPU"), ("CONCATENATION", True, "CPU"), ("MEAN", False, "NPU"), ("MEAN", False, "CPU")}
+    if not need_bc <= ops_bc or not need_enc <= ops_enc:
+        raise MachineryError("negative control: golden events lack unequal-rank / other-encoding placements: %s %s" % (
+            sorted(need_bc - ops_bc), sorted(need_enc - ops_enc)))
+    # a concatenation whose axis is moved to another dimension is another operator: the recorded placement is rejected
+    moved = [e for e in decided if e["c"]["op"] == "CONCATENATION" and e["c"]["axis"] == "concat_axis" and e["c"]["ax"] == -1
+             and e["observed"] == "NPU" and len(e["c"]["so"]) == 4]
+    if not moved:
+        raise MachineryError("negative control: golden events lack a CONCATENATION with axis -1")
+    add(moved[0], "ViolatesButNpu")["c"]["ax"] = -2
     _, v = validate(d, corrupted)
     if {(x[0], x[1]) for x in v} != want:
         raise MachineryError("negative control: golden placements rejected or corrupted placements accepted: missing %s, "
@@ -706,6 +795,9 @@ def negative_controls(run, tier="thorough"):
         listed["TRANSPOSE"] = [x for x in listed["TRANSPOSE"] if x != "tr_perm"]
         listed["STRIDED_SLICE"] = [x for x in listed["STRIDED_SLICE"] if x != "ss_strides"]
         listed["SOFTMAX"] = [x for x in listed["SOFTMAX"] if x != "sm_beta"]
+        listed["ADD"] = [x for x in listed["ADD"] if x != "broadcast"]
+        listed["MAXIMUM"] = [x for x in listed["MAXIMUM"] if x != "broadcast"]
+        listed["CONCATENATION"] = [x for x in listed["CONCATENATION"] if x != "cc_dims"]
     d2, *_ = prepare_spec(run, md, mutate=mutate)
     _, v2 = validate(d2, good)
     hit = {(by_t[x[0]]["c"]["op"], by_t[x[0]]["c"]["axis"], x[1]) for x in v2}
@@ -713,18 +805,41 @@ def negative_controls(run, tier="thorough"):
                ("DEPTHWISE_CONV_2D", "stride_h"), ("MEAN", "mean_width"), ("ARG_MAX", "depth"), ("RESIZE_BILINEAR", "scale"),
                ("RESIZE_NEAREST_NEIGHBOR", "scale"), ("RESIZE_BILINEAR", "half_pixel"), ("PAD", "padding")}
     unlisted = {("RESHAPE", "quant_differs"), ("CONV_2D", "batch"), ("CONV_2D", "weights_zero_point"), ("TRANSPOSE", "permutation"),
-                ("STRIDED_SLICE", "strides"), ("SOFTMAX", "beta")}
+                ("STRIDED_SLICE", "strides"), ("SOFTMAX", "beta"), ("ADD", "broadcast_leading"), ("MAXIMUM", "broadcast_leading"),
+                ("CONCATENATION", "dims_differ")}
     miss_a = shifted - {(o, a) for o, a, k in hit}
     miss_b = unlisted - {(o, a) for o, a, k in hit if k == "SatisfiesButCpu"}
     if miss_a or miss_b or not {"SatisfiesButCpu", "ViolatesButNpu"} <= {k for o, a, k in hit}:
         raise MachineryError("negative control: a report with shifted constants / dropped constraints was not detected for %s / %s"
                              % (sorted(miss_a), sorted(miss_b)))
+    # ---- round 5: a specification whose Broadcast aligns the LEADING dimensions, and one that does not normalise an axis
+    #      counted from the end, are rejected by the design invariants (checked over the whole case set)
+    broken = [("BroadcastIsTrailingAligned", "Ext(s, r) == IF Len(s) >= r THEN s ELSE [i \\in 1..r |-> IF i <= r - Len(s) THEN 1 ELSE s[i - (r - Len(s))]]",
+               "Ext(s, r) == IF Len(s) >= r THEN s ELSE [i \\in 1..r |-> IF i <= Len(s) THEN s[i] ELSE 1]"),
+              ("EquivalentEncodingsSameExpect", "CanonAx(a, r) == IF InR(a, -r, -1) THEN a + r ELSE a", "CanonAx(a, r) == a")]
+    for inv, old, new in broken:
+        d3, *_ = prepare_spec(run, md)
+        with open(os.path.join(d3, "SupportedOps.tla")) as f:
+            text = f.read()
+        if text.count(old) != 1:
+            raise MachineryError("negative control: SupportedOps.tla no longer contains the definition %r" % old[:40])
+        with open(os.path.join(d3, "SupportedOps.tla"), "w") as f:
+            f.write(text.replace(old, new))
+        bad = tlc.run("SupportedOpsGen", "SupportedOpsGenDesignQuick.cfg", workers=1, timeout=900, cwd=d3)
+        if bad["status"] != "invariant" or inv not in str(bad.get("violated")):
+            raise MachineryError("negative control: the specification with a broken %s passes the design invariants (%s %s)\n%s" % (
+                old.split("(")[0], bad["status"], bad.get("violated"), bad["output"][-1500:]))
     run.cov["negative_controls"] = ["golden placements accepted (%d, among them %d failed compilations of undecided cases)" % (
                                         len(good) + len(uf), len(uf)),
                                     "flipped placement x%d (every covered operator), lost operator, rewritten CPU operator, "
                                     "absorbed memory-only operator" % len(flipped),
                                     "wrong --force-symmetric-int-weights flag in the case record x%d: rejected" % len(lied),
                                     "eliminated operator: identity resize accepted, scaling resize rejected",
+                                    "operands of different ranks: flipped placement x%d rejected; attribute in its other encoding "
+                                    "(axis from the end / from the front) x%d: same placement accepted, flipped placement rejected; "
+                                    "CONCATENATION axis moved to another dimension rejected" % (n_bc, n_enc),
+                                    "specification with leading-aligned broadcasting / without axis normalisation: rejected by "
+                                    "BroadcastIsTrailingAligned / EquivalentEncodingsSameExpect",
                                     "failed compilation of an undecided case x%d: verdict with UndecidedFailureIsVerdict = TRUE" % len(uf),
                                     "report with constants shifted by one step and constraints dropped: %d inconsistencies, every "
                                     "one of the %d mutated constraints detected" % (len(v2), len(shifted) + len(unlisted))]
@@ -807,7 +922,12 @@ def _main(run, tier, neg):
                     plan += [(r, v, ACCELS[k % 2]) for v in one_sided]
                 else:
                     plan.append((r, ("npu", "npu_pre", "npu_post")[(k + sd) % 3], ACCELS[k % 2]))
+        # an operator that must stay on the CPU whose only consumer is a lookup-table activation (which the NPU would like to
+        # fuse into its producer): a fifth of them per run, rotating with the seed
+        cpu = [r for r in single if r["expect"] == "CPU" and r["c"]["axis"] != "neutral_option"]
+        plan += [(r, "lut_post", ACCELS[i % 2]) for i, r in enumerate(cpu) if i % 5 == sd % 5]
     else:
+        plan += [(r, "lut_post", ALL_ACCELS[i % 6]) for i, r in enumerate(single)]
         for r in first:
             plan += [(r, v, a) for v in ("single", "sandwich", "npu") for a in ALL_ACCELS]
         for i, r in enumerate(later):
@@ -818,6 +938,11 @@ def _main(run, tier, neg):
                 plan += [(r, v, ALL_ACCELS[(i + j) % 6]) for j, v in enumerate(one_sided)]
         plan += [(r, "single", a) for i, r in enumerate(pairs[:4000]) for a in (ALL_ACCELS[i % 6], ALL_ACCELS[(i + 3) % 6])]
         plan += [(r, "npu", ALL_ACCELS[i % 6]) for i, r in enumerate(pairs[4000:5000])]
+    for r, v, a in plan:
+        name = switched_off_variant(r, v)
+        if name:
+            off[name] = off.get(name, 0) + 1
+    plan = [(r, v, a) for r, v, a in plan if not switched_off_variant(r, v)]
     jobs, meta, events, failed = run_cases(run, d, plan)
     nfail = sum(len(v) for v in failed.values())
     res, viol = validate(d, events)
@@ -857,19 +982,23 @@ def _main(run, tier, neg):
     run.cov["rule"] = ("cases = elements of Cases in SupportedOps.tla enumerated by TLC from the constants parsed out of the "
                        "report the working tree generates; the command-line option the report names "
                        "(--force-symmetric-int-weights) is a field of the case and is passed to the compiler; each case is "
-                       "compiled as a one-operator network (and with CPU-only / NPU-able neighbours on both sides or one side) "
-                       "for ethos-u55-128 / ethos-u65-256 (all six configurations in the thorough tier); non-trivial = distinct "
+                       "compiled as a one-operator network (and with CPU-only / NPU-able neighbours on both sides or one side, "
+                       "or a lookup-table activation as only consumer) for ethos-u55-128 / ethos-u65-256 (all six configurations in the thorough tier); non-trivial = distinct "
                        "(operator, axis, failing constraints, variant, accelerator family) with an observed placement")
     run.assumptions += [
         "constraint kinds the generated networks always satisfy (attributes present, static shapes, finite scales, "
         "integer strides) are taken as holding",
         "'Tensors must be of type' / 'int32' / 'dimensions' are read as statements about IFM, IFM2, weights and OFM (not bias)",
         "wording that does not decide a case (stride width > 3 criteria, 40-bit bias magnitude, batch of tensors with "
-        "fewer than 4 dimensions, FC '2D output', negative CONCATENATION axis, identity TRANSPOSE, align_corners scaling of "
+        "fewer than 4 dimensions, FC '2D output', identity TRANSPOSE, align_corners scaling of "
         "an extent of 1, beta = 0, slice ranges where masks and raw values disagree) gives Expect = ANY: no verdict",
         "parameter tensors (axis, begin / size / strides, permutation, paddings, resize size) are not 'Tensors' of the "
         "generic type / int32 / dimension constraints",
         "an operator whose result equals its input (RESIZE_* to the same size) may be eliminated instead of placed",
+        "the bullets are statements about the operator, not about its encoding: an axis counted from the end (CONCATENATION, "
+        "SPLIT, SPLIT_V, ARG_MAX, MEAN) and a SLICE size of -1 are judged as their canonical form (Canon in SupportedOps.tla)",
+        "broadcasting aligns trailing dimensions (TFLite / numpy); the batch of an operand of a broadcasting operator is read "
+        "off the shape it is extended to (leading 1s)",
     ]
     return run.finish()
 
